@@ -33,6 +33,103 @@ func c11(r *R) {
 	c11For(r, "float64", []float64{0.5, 1, 1.5}, 4)
 	c11By(r, L)
 	c11Union(r)
+	c11LongRuns(r)
+}
+
+// c11LongRuns: inputs with MANY distinct values. Every slice that is a run of n distinct values
+// (ascending or descending) with one value v repeated at position p -- every n up to N, every v and p
+// on a grid -- paired with second arguments that keep everything, drop one value, or keep only the
+// repeated one. The small-alphabet enumeration above cannot reach result sizes where an implementation
+// switches strategy (a linear scan below a threshold, a map index above it).
+func c11LongRuns(r *R) {
+	N := 48
+	if thorough {
+		N = 96
+	}
+	ident := func(v int) int { return v }
+	half := func(v int) int { return v / 2 }
+	count := 0
+	for n := 2; n <= N; n += 1 + n/24 {
+		for _, desc := range []bool{false, true} {
+			base := make([]int, n)
+			for i := range base {
+				base[i] = i
+				if desc {
+					base[i] = n - 1 - i
+				}
+			}
+			for vi := 0; vi < n; vi += 1 + n/12 {
+				for p := 0; p <= n; p += 1 + n/12 {
+					s := append(append(append([]int{}, base[:p]...), base[vi]), base[p:]...)
+					count++
+					wit := fmt.Sprintf("a run of %d distinct values (descending=%t) with value %d repeated at position %d", n, desc, base[vi], p)
+					want := refUnique(s)
+					if g := gogu.Unique(cp(s)); !eqSlice(g, want) {
+						r.Bad("Unique/not-first-occurrences-in-order/long-run", wit, "Unique = %v, want %v", g, want)
+					}
+					if g := gogu.UniqueBy(cp(s), ident); !eqSlice(g, want) {
+						r.Bad("UniqueBy/wrong/long-run", wit, "UniqueBy(id) = %v, want %v", g, want)
+					}
+					if g := gogu.Intersection(cp(s)); !eqSlice(g, want) {
+						r.Bad("Intersection/single-argument/long-run", wit, "Intersection(s) = %v, want %v", g, want)
+					}
+					if g := gogu.Intersection(cp(s), cp(base)); !eqSlice(g, want) {
+						r.Bad("Intersection/wrong/long-run", wit, "Intersection(s, all values) = %v, want %v", g, want)
+					}
+					if g := gogu.Intersection(cp(s), cp(base), cp(s)); !eqSlice(g, want) {
+						r.Bad("Intersection/three-arguments/long-run", wit, "Intersection(s, all values, s) = %v, want %v", g, want)
+					}
+					if g := gogu.IntersectionBy(ident, cp(s), cp(base)); !sameSet(g, want) || len(g) < len(want) {
+						r.Bad("IntersectionBy/wrong/long-run", wit, "IntersectionBy(id, s, all values) = %v, want every element of %v", g, want)
+					}
+					if g := gogu.Difference(cp(s), []int{-1}); !eqSlice(g, want) {
+						r.Bad("Difference/wrong/long-run", wit, "Difference(s, [-1]) = %v, want %v", g, want)
+					}
+					if g := gogu.Without[int, int](cp(s), -1); !eqSlice(g, want) {
+						r.Bad("Without/wrong/long-run", wit, "Without(s, -1) = %v, want %v", g, want)
+					}
+					one := []int{base[vi]}
+					if g := gogu.Intersection(cp(s), one); !eqSlice(g, one) {
+						r.Bad("Intersection/wrong/long-run", wit, "Intersection(s, %v) = %v, want %v", one, g, one)
+					}
+					wantD := []int{}
+					for _, v := range want {
+						if v != base[vi] {
+							wantD = append(wantD, v)
+						}
+					}
+					if g := gogu.Difference(cp(s), one); !eqSlice(g, wantD) {
+						r.Bad("Difference/wrong/long-run", wit, "Difference(s, %v) = %v, want %v", one, g, wantD)
+					}
+					// (one iteration order only: enumerating every order of a 40-entry map is out of reach;
+					// the result is compared as a set)
+					if d := gogu.Duplicate(cp(s)); !sameSet(d, one) || len(d) != 1 {
+						r.Bad("Duplicate/not-exactly-the-repeated-values/long-run", wit, "Duplicate = %v, want %v", d, one)
+					}
+					// images collide pairwise under v/2: UniqueBy keeps the first element of each image
+					var wantH []int
+					seen := map[int]bool{}
+					for _, v := range s {
+						if !seen[half(v)] {
+							seen[half(v)] = true
+							wantH = append(wantH, v)
+						}
+					}
+					if g := gogu.UniqueBy(cp(s), half); !eqSlice(g, wantH) {
+						r.Bad("UniqueBy/wrong/long-run", wit, "UniqueBy(v/2) = %v, want %v", g, wantH)
+					}
+					if u, err := gogu.Union[int]([]any{cp(s), []any{cp(base)}}); err != nil || !eqSlice(u, want) {
+						r.Bad("Union/wrong/long-run", wit, "Union([s,[all values]]) = %v (%v), want %v", u, err, want)
+					}
+					r.Eval("long-run")
+					if n >= 8 {
+						r.Nontrivial(fmt.Sprint("lr", n, desc, vi, p))
+					}
+				}
+			}
+		}
+	}
+	r.Set("long_run_inputs", count)
 }
 
 func c11For[T comparable](r *R, tn string, alpha []T, L int) {
